@@ -58,7 +58,7 @@ def main():
         gen_tables.write_if_changed("PyFuns.lean", gen_tables.gen_pyfuns())
         gen_tables.write_if_changed("DualHelpers.lean", gen_tables.gen_dual_helpers())
     except py2lean.Untranslatable as e:
-        run.proof_broken.append(f"translator:{e}")
+        run.proof_broken.append(f"translator:_slice_indices:{e}")
     # 2. proofs
     run.build_and_audit(["TdVerif.Props.C18"])
     try:
@@ -159,19 +159,6 @@ def main():
             if bt != cc_t[i]:
                 raise Infra("tensordict/_C*.so is stale w.r.t. tensordict/csrc (rebuild the extension)")
     run.sample({"stream": "key", "case": ksx[len(ksx) // 2], "cpp": m_kc[len(ksx) // 2], "py": m_kp[len(ksx) // 2]})
-
-    # 3b''. call-level unravel_key_list (both overloads) / unravel_keys, and the key specification
-    import c18_keys
-    c18_keys.key_calls(run, C, keys)
-
-    # 3b'. the dual pair infer_size_impl / _infer_size_impl
-    import c18_infer
-    c18_infer.infer_size(run)
-    c18_infer.neg_dim(run)
-
-    # 3b3. _check_keys on both branches
-    import c18_checkkeys
-    c18_checkkeys.check_keys(run)
 
     # 3c. batch-size spellings and key-aligned value lists (both branches, direct oracle)
     import c18_programs
